@@ -343,6 +343,156 @@ func genScen(r *vh.Rand) string {
 		strings.Join(users, ","), strings.Join(defs, "|"), strings.Join(scens, "|"), opts)
 }
 
+// ---- time: think time between scenario steps, a target that takes its time ----
+
+// genValidDef: a call definition that is sent (known method, fitting payload).
+func genValidDef(r *vh.Rand, i int, name, pp string) string {
+	m := methods[r.Intn(4)]
+	idRef := "{{.request." + pp + ".preprocessor.u.id}}"
+	meta := "-"
+	if k := r.PickInt([]int{0, 1, 1, 2}); k > 0 {
+		used := map[string]bool{}
+		var items []string
+		for len(items) < k {
+			key := r.Pick(mdKeys)
+			if used[strings.ToLower(key)] {
+				continue
+			}
+			used[strings.ToLower(key)] = true
+			items = append(items, vh.HexS(key)+"="+vh.HexS(genTmpl(r, pp)))
+		}
+		meta = strings.Join(items, ",")
+	}
+	var fs []string
+	for _, f := range m.fields {
+		key := jstr(f.name) + ": "
+		if f.isInt {
+			if r.Chance(1, 2) {
+				fs = append(fs, key+idRef)
+			} else {
+				fs = append(fs, key+fmt.Sprint(r.Range(0, 5000)))
+			}
+		} else {
+			fs = append(fs, key+`"`+genTmpl(r, pp)+`"`)
+		}
+	}
+	pl := vh.HexS("{" + strings.Join(fs, ", ") + "}")
+	return fmt.Sprintf("%s;%s;%s;%s;%s;%s", vh.HexS(name), vh.HexS(tagFor(r, i)), vh.HexS(m.name), meta, pl, vh.B(i == 0))
+}
+
+// genScenTimed: scenarios of 2-4 sent steps with THINK TIME after steps (`name(1,ms)` / `sleep(ms)`) and a
+// target whose answers take time, under a request timeout of 1 s / 2 s.  The property gives every call
+// the configured timeout from the moment it is issued, so: latencies well below the timeout (<= T-500 ms:
+// answered, whatever was slept or waited for before) or well above it (T+300 ms: that call is a 504
+// sample, the next steps are sent all the same); think times up to more than the whole timeout.
+// The recorded deadline is rounded to seconds (500 ms of slack for transit on a busy machine).
+func genScenTimed(r *vh.Rand) string {
+	ninst := r.Range(1, 2)
+	nshots := r.PickInt([]int{1, 1, 2})
+	var order []string
+	for i := 0; i < nshots; i++ {
+		order = append(order, fmt.Sprint(r.Intn(ninst)))
+	}
+	T := r.PickInt([]int{1000, 1000, 2000})
+	nu := r.Range(1, 3)
+	var users []string
+	for i := 0; i < nu; i++ {
+		users = append(users, vh.HexS(tokPool[r.Intn(len(tokPool))])+":"+vh.HexS(fmt.Sprint(r.PickInt([]int{1, 2, 3, 10, 17, 1098, 2001}))))
+	}
+	nd := r.Range(1, 3)
+	perm := r.Intn(len(callNames))
+	pp := callNames[perm%len(callNames)]
+	var defs []string
+	for i := 0; i < nd; i++ {
+		defs = append(defs, genValidDef(r, i, callNames[(perm+i)%len(callNames)], pp))
+	}
+	nsteps := r.Range(2, 4)
+	budget := 1700 // ms of think time + latency per shot, keeps the quick tier short
+	var steps, plan []string
+	slow := false
+	for k := 0; k < nsteps; k++ {
+		idx := 0
+		if k > 0 {
+			idx = r.Intn(nd)
+		}
+		st := fmt.Sprint(idx)
+		// the answer to this step
+		lat := 0
+		switch r.Intn(8) {
+		case 0, 1:
+			lat = r.PickInt([]int{150, 300, 500})
+		case 2:
+			if !slow && budget >= T+300 {
+				lat = T + 300
+				slow = true
+			}
+		}
+		if lat > T {
+			budget -= T
+		} else if lat <= budget {
+			budget -= lat
+		} else {
+			lat = 0
+		}
+		code := 0
+		if r.Chance(1, 4) {
+			code = r.PickInt(answerCodes)
+		}
+		if lat > 0 {
+			plan = append(plan, fmt.Sprintf("%d+%d", code, lat))
+		} else {
+			plan = append(plan, fmt.Sprint(code))
+		}
+		// think time after the step
+		if k < nsteps-1 || r.Chance(1, 4) {
+			sl := r.PickInt([]int{0, 100, 300, 600, 700, 1100, T + 100})
+			if sl > budget {
+				sl = budget / 100 * 100
+			}
+			budget -= sl
+			if sl > 0 {
+				st += r.Pick([]string{"~", "^"}) + fmt.Sprint(sl)
+			}
+		}
+		steps = append(steps, st)
+	}
+	scen := vh.HexS(r.Pick(scenNames)) + ":" + strings.Join(steps, ".")
+	// the same answers for every shot
+	var all []string
+	for i := 0; i < nshots; i++ {
+		all = append(all, plan...)
+	}
+	return fmt.Sprintf("scen %d %d %s %s %s %s%s fl=p%s", ninst, T, strings.Join(order, ","),
+		strings.Join(users, ","), strings.Join(defs, "|"), scen, genReflMeta(r), strings.Join(all, "."))
+}
+
+// genJSONTimed: grpc/json entries against a target that takes its time: an entry whose answer does not
+// come within the timeout is a 504 sample for THAT entry; the entries after it are sent as written.
+func genJSONTimed(r *vh.Rand) string {
+	n := r.Range(2, 4)
+	T := 1000
+	var es, plan []string
+	slowAt := r.Intn(n + 1) // n: none
+	for i := 0; i < n; i++ {
+		e := genEntry(r, fmt.Sprintf("t%d", i), len(methods))
+		es = append(es, e)
+		code := 0
+		if r.Chance(1, 4) {
+			code = r.PickInt(answerCodes)
+		}
+		switch {
+		case i == slowAt:
+			plan = append(plan, fmt.Sprintf("%d+%d", code, T+300))
+		case r.Chance(1, 3):
+			plan = append(plan, fmt.Sprintf("%d+%d", code, r.PickInt([]int{100, 300, 500})))
+		default:
+			plan = append(plan, fmt.Sprint(code))
+		}
+	}
+	return fmt.Sprintf("json d %s %d %d %d %d %s%s fl=p%s", vh.B(r.Chance(1, 2)), r.Range(0, 3), r.Range(1, 3), T, n,
+		strings.Join(es, " "), genReflMeta(r), strings.Join(plan, "."))
+}
+
 // genLong: more entries than the provider's sink buffer (128), so that ammo objects released to
 // the provider's sync.Pool are reused for later entries (state leaking from one entry into a
 // later one through the pooled object would show here).
@@ -365,6 +515,17 @@ func gen(r *vh.Rand, tier string) []string {
 	var out []string
 	for i := 0; i < 1+n/400; i++ {
 		out = append(out, genLong(r))
+	}
+	// time: think time / slow answers (each case takes about a second of wall clock)
+	nt, njt := 10, 3
+	if tier == "thorough" {
+		nt, njt = 40, 10
+	}
+	for i := 0; i < nt; i++ {
+		out = append(out, genScenTimed(r))
+	}
+	for i := 0; i < njt; i++ {
+		out = append(out, genJSONTimed(r))
 	}
 	for i := 0; i < n; i++ {
 		if i%5 < 3 {
